@@ -22,6 +22,7 @@ Inductive cop :=
 | OClRecv (q : N)                     (* try_recv on queue q *)
 | OClDropRx (q : N)
 | OClDropHandle (ch : N)
+| OPeekOut                            (* observe the whole out-buffer *)
 | OTeardown.
 
 Inductive recv_res := RItem (it : qitem) | REmpty | RDisc.
@@ -32,14 +33,21 @@ Inductive cobs :=
 | BSent (ok : bool)
 | BNewQ (q : N) (sent : bool)
 | BRecv (r : recv_res)
+| BBytes (bs : bytes)
 | BUnit.
 
 (* phase, outbuf length, outbuf adler32, sealed, open ids *)
 Definition digest := (N * N * N * bool * list N)%type.
 
-Definition case := (N * N * list cop * list (cobs * digest))%type.
+Inductive addressee := AConsumer (ch : N) (tag : str) | AGetter (ch : N) | AReturn (ch : N)
+                     | AConfirm (ch : N) | ABlocked.
 
-Record world := { w_core : core; w_handles : alist N (* channel -> its reply queue *) }.
+(* channel_max, mailbox bound, operations, observations, and for the property oracles
+   which client-side queue belongs to which addressee (the harness created them) *)
+Definition case := (N * N * list cop * list (cobs * digest) * list (N * addressee))%type.
+
+Record world := { w_core : core; w_handles : alist N (* channel -> its reply queue *);
+                  w_torn : bool }.
 
 Definition phase_code (p : phase) : N :=
   match p with PSteady => 0 | PServerClosing _ _ => 1 | PClientException => 2 | PClientClosed => 3 end.
@@ -54,12 +62,9 @@ Definition set_rx (q : N) (b : bool) (m : qs) : qs :=
   | Some qu => ainsert q {| q_items := q_items qu; q_cap := q_cap qu; q_tx := q_tx qu; q_rx := b |} m
   end.
 
-Definition msg_q (m : msg) : option N :=
-  match m with MsgSetReturn (Some q) | MsgSetConfirm (Some q) => Some q | _ => None end.
-
 Definition step (w : world) (o : cop) : cobs * world :=
   let c := w_core w in
-  let upd c' := {| w_core := c'; w_handles := w_handles w |} in
+  let upd c' := {| w_core := c'; w_handles := w_handles w; w_torn := w_torn w |} in
   match o with
   | OFrame f =>
       let '(r, c') := process c f in (BOutcome r 0 (adler []), upd c')
@@ -122,7 +127,7 @@ Definition step (w : world) (o : cop) : cobs * world :=
                             end
                         | _ => w_handles w
                         end in
-              (BRecv (RItem it), {| w_core := c'; w_handles := hs |})
+              (BRecv (RItem it), {| w_core := c'; w_handles := hs; w_torn := w_torn w |})
           | [] => (BRecv (if q_tx qu then REmpty else RDisc), w)
           end
       end
@@ -147,24 +152,30 @@ Definition step (w : world) (o : cop) : cobs * world :=
                           if s_reply s =? rq then
                             set_slot c1 ch {| s_mail := s_mail s; s_mail_tx := false; s_reply := s_reply s;
                                               s_coll := s_coll s; s_consumers := s_consumers s;
-                                              s_ret := s_ret s; s_conf := s_conf s |}
+                                              s_ret := s_ret s; s_conf := s_conf s;
+                                              s_ncons := s_ncons s |}
                           else c1
                       | None => c1
                       end in
-            (BUnit, {| w_core := c2; w_handles := aremove ch (w_handles w) |})
+            (BUnit, {| w_core := c2; w_handles := aremove ch (w_handles w); w_torn := w_torn w |})
         end
-  | OTeardown => (BUnit, upd (teardown c))
+  | OPeekOut => (BBytes (ob (c_out c)), w)
+  | OTeardown => (BUnit, {| w_core := teardown c; w_handles := w_handles w; w_torn := true |})
   end.
+
+Definition torn_digest : digest := (9, 0, 0, false, []).
+Definition digest_of_world (w : world) : digest :=
+  if w_torn w then torn_digest else digest_of (w_core w).
 
 Fixpoint run (w : world) (ops : list cop) : list (cobs * digest) :=
   match ops with
   | [] => []
-  | o :: ops' => let '(b, w') := step w o in (b, digest_of (w_core w')) :: run w' ops'
+  | o :: ops' => let '(b, w') := step w o in (b, digest_of_world w') :: run w' ops'
   end.
 
 Definition model_out (c : case) : list (cobs * digest) :=
-  let '(mx, bound, ops, _) := c in
-  run {| w_core := init_core mx bound; w_handles := [] |} ops.
+  let '(mx, bound, ops, _, _) := c in
+  run {| w_core := init_core mx bound; w_handles := []; w_torn := false |} ops.
 
 (* ---------- decidable equality of observations ---------- *)
 
@@ -257,6 +268,7 @@ Definition cobs_eqb (a b : cobs) : bool :=
   | BRecv (RItem i1), BRecv (RItem i2) => qitem_eqb i1 i2
   | BRecv REmpty, BRecv REmpty | BRecv RDisc, BRecv RDisc => true
   | BUnit, BUnit => true
+  | BBytes a, BBytes b => bytes_eqb a b
   | _, _ => false
   end.
 
@@ -278,13 +290,11 @@ Fixpoint agree (m obs : list (cobs * digest)) : bool :=
   end.
 
 Definition model_agrees (c : case) : bool :=
-  let '(_, _, _, obs) := c in agree (model_out c) obs.
+  let '(_, _, _, obs, _) := c in agree (model_out c) obs.
 
 (* ====================== property oracles (model-independent) ====================== *)
 
 (* ---- the compliant reading of a frame sequence (C03 / C07) ---- *)
-
-Inductive addressee := AConsumer (ch : N) (tag : str) | AGetter (ch : N) | AReturn (ch : N).
 
 Inductive rmsg :=
 | RDelivery (m : message)
@@ -394,12 +404,38 @@ Fixpoint subseq {A} (eqb : A -> A -> bool) (l1 l2 : list A) : bool :=
   | x :: l1', y :: l2' => if eqb x y then subseq eqb l1' l2' else subseq eqb l1 l2'
   end.
 
-(* O-content: every message a client received is, in order, among what the compliant
-   reading of the frames fed yields ("never mis-delivered") *)
-Definition oracle_content (ops : list cop) (obs : list (cobs * digest)) : bool :=
-  let got := flat_map (fun '(_, it) => match rmsg_of_item it with Some m => [m] | None => [] end)
-                      (received ops obs) in
-  subseq rmsg_eqb got (map snd (ref_read [] (frames_of ops))).
+Definition addressee_eqb (a b : addressee) : bool :=
+  match a, b with
+  | AConsumer c1 t1, AConsumer c2 t2 => (c1 =? c2) && str_eqb t1 t2
+  | AGetter c1, AGetter c2 | AReturn c1, AReturn c2 | AConfirm c1, AConfirm c2 => c1 =? c2
+  | ABlocked, ABlocked => true
+  | _, _ => false
+  end.
+
+Definition items_from (q : N) (rc : list (N * qitem)) : list qitem :=
+  flat_map (fun '(q', it) => if q' =? q then [it] else []) rc.
+Definition msgs_of (its : list qitem) : list rmsg :=
+  flat_map (fun it => match rmsg_of_item it with Some m => [m] | None => [] end) its.
+Definition expected_for (a : addressee) (rr : list (addressee * rmsg)) : list rmsg :=
+  flat_map (fun '(a', m) => if addressee_eqb a a' then [m] else []) rr.
+
+(* O-content: per client-side queue, the messages received from it are, in order, among
+   (sub = true: "never mis-delivered") or exactly (sub = false: "exactly once, intact, in
+   order") what the compliant reading of the frames fed yields for that queue's
+   addressee; and no message arrives on a queue that has no addressee *)
+Definition oracle_content_gen (sub : bool) (ops : list cop) (obs : list (cobs * digest))
+           (aux : list (N * addressee)) : bool :=
+  let rc := received ops obs in
+  let rr := ref_read [] (frames_of ops) in
+  forallb (fun '(q, a) =>
+             let got := msgs_of (items_from q rc) in
+             let want := expected_for a rr in
+             if sub then subseq rmsg_eqb got want else list_eqb rmsg_eqb got want) aux
+  && forallb (fun '(q, it) => match rmsg_of_item it with
+                              | Some _ => existsb (fun '(q', _) => q' =? q) aux
+                              | None => true
+                              end) rc.
+Definition oracle_content ops obs aux := oracle_content_gen true ops obs aux.
 
 (* O-panic: nothing panicked, no assertion failed *)
 Definition oracle_no_panic (obs : list (cobs * digest)) : bool :=
@@ -432,9 +468,9 @@ Definition oracle_consumers (ops : list cop) (obs : list (cobs * digest)) : bool
   forallb (fun q => shape_ok false (flat_map (fun '(q', it) => if q' =? q then [it] else []) rc))
           (consumer_queues rc).
 
-Definition oracle_ok (c : case) : bool :=
-  let '(_, _, ops, obs) := c in
-  oracle_no_panic obs && oracle_content ops obs && oracle_consumers ops obs.
+Definition oracle_core (c : case) : bool :=
+  let '(_, _, ops, obs, aux) := c in
+  oracle_no_panic obs && oracle_content ops obs aux && oracle_consumers ops obs.
 
 Fixpoint bad_idx {A} (f : A -> bool) (i : N) (l : list A) : list N :=
   match l with
@@ -442,4 +478,18 @@ Fixpoint bad_idx {A} (f : A -> bool) (i : N) (l : list A) : list N :=
   | x :: l' => if f x then bad_idx f (i + 1) l' else i :: bad_idx f (i + 1) l'
   end.
 Definition bad_model (cs : list case) : list N := bad_idx model_agrees 0 cs.
-Definition bad_oracle (cs : list case) : list N := bad_idx oracle_ok 0 cs.
+
+(* debugging aid: the first position where model and implementation differ *)
+Fixpoint first_diff (i : N) (m obs : list (cobs * digest)) (ops : list cop)
+  : option (N * option cop * option (cobs * digest) * option (cobs * digest)) :=
+  match m, obs with
+  | [], [] => None
+  | x :: m', y :: obs' =>
+      if cobs_eqb (fst x) (fst y) && digest_eqb (snd x) (snd y)
+      then first_diff (i + 1) m' obs' (tl ops)
+      else Some (i, hd_error ops, Some x, Some y)
+  | x :: _, [] => Some (i, hd_error ops, Some x, None)
+  | [], y :: _ => Some (i, hd_error ops, None, Some y)
+  end.
+Definition diff_of (c : case) :=
+  let '(_, _, ops, obs, _) := c in first_diff 0 (model_out c) obs ops.
